@@ -55,14 +55,15 @@ class Ctx:
         self.lines.append(line)
         self.expect.append(("setup", expect, None))
 
-    def case(self, line: str, impl_obs: str, case_json, nontrivial: bool = True, key=None):
+    def case(self, line: str, impl_obs: str, case_json, nontrivial: bool = True, key=None, cmp=None):
+        """`cmp(model_output, impl_obs) -> bool` replaces string equality (e.g. graph isomorphism)"""
         self.lines.append(line)
-        self.expect.append(("case", impl_obs, case_json))
+        self.expect.append(("case", impl_obs, case_json) if cmp is None else ("case", impl_obs, case_json, cmp))
         self.evaluations += 1
         if nontrivial:
             self.distinct.add(key if key is not None else line)
         if len(self.samples) < 6 and nontrivial and self.rng.random() < 0.05:
-            self.samples.append({"case": case_json, "impl": impl_obs})
+            self.samples.append({"case": case_json, "impl": impl_obs[:2000]})
 
     def count(self, name: str, k: int = 1):
         self.stats[name] = self.stats.get(name, 0) + k
@@ -116,12 +117,14 @@ def run_module(mod, ctx: Ctx):
         outs = leanbuild.run_driver(ctx.lines)
         if len(outs) != len(ctx.lines):
             diffs.append({"kind": "driver-output-length", "expected": len(ctx.lines), "got": len(outs)})
-        for line, (kind, exp, cj), out in zip(ctx.lines, ctx.expect, outs):
+        for line, ex, out in zip(ctx.lines, ctx.expect, outs):
+            kind, exp, cj = ex[0], ex[1], ex[2]
+            cmp = ex[3] if len(ex) > 3 else None
             if kind == "setup":
                 if exp is not None and not out.startswith(exp):
                     diffs.append({"kind": "setup", "line": line, "model": out, "expected": exp})
-            elif out != exp:
-                diffs.append({"kind": "correspondence", "line": line, "case": cj, "impl": exp, "model": out})
+            elif (not cmp(out, exp)) if cmp else (out != exp):
+                diffs.append({"kind": "correspondence", "line": line, "case": cj, "impl": exp[:3000], "model": out[:3000]})
     return diffs
 
 
@@ -187,6 +190,10 @@ def main():
         broken.append(f"harness/adapter error: {type(e).__name__}: {e}")
     if diffs:
         broken.append(f"correspondence: {len(diffs)} case(s) where model and implementation differ")
+        d = os.path.join(VERIF, "replays", prop_id)
+        os.makedirs(d, exist_ok=True)
+        with open(os.path.join(d, "last_diffs.json"), "w") as f:
+            json.dump(diffs[:20], f, indent=1, ensure_ascii=False, default=str)
 
     # 4. known findings
     known = [k for k in load_known() if k["property"] == prop_id and k.get("status") == "known"]
@@ -249,7 +256,7 @@ def main():
     wall = round(time.time() - t0, 2)
     samples = ctx.samples[:6]
     if not samples and ctx.expect:
-        samples = [{"case": cj, "impl": exp} for kind, exp, cj in ctx.expect if kind == "case"][:3]
+        samples = [{"case": ex[2], "impl": ex[1][:2000]} for ex in ctx.expect if ex[0] == "case"][:3]
     if not samples:
         samples = [{"theorems": list(b["theorems"].keys())[:5]}]
     ev = {
